@@ -95,7 +95,11 @@ def scheme_text(case):
 def check_synthetic(ctx, case):
     from pgradd.GroupAdd.Scheme import GroupAdditivityScheme
     from props.C02 import compare
-    d = tempfile.mkdtemp(prefix='pgradd-scheme-', dir=os.environ.get('TMPDIR', '/tmp'))
+    # every synthetic scheme of a process is written to the SAME path (the directory is removed after each case and made again):
+    # loading a path gives what the file holds now, not what an earlier file at that path held
+    d = os.path.join(os.environ.get('TMPDIR', '/tmp'), 'pgradd-scheme-reused-%d' % os.getpid())
+    shutil.rmtree(d, ignore_errors=True)
+    os.makedirs(d)
     try:
         path = os.path.join(d, 'scheme.yaml')
         with open(path, 'w') as f:
